@@ -52,12 +52,12 @@ func genFamScenario(r *kernel.RNG, tier string, i int) interface{} {
 	if r.Chance(0.5) {
 		n = r.Range(2, 8)
 	}
-	w := []int{r.Range(1, 5), r.Range(1, 6), r.Range(1, 3), r.Range(0, 2), r.Range(0, 3), r.Range(0, 3), r.Range(0, 2), r.Range(0, 2), r.Range(0, 2), r.Range(0, 2)}
-	kinds := []string{"mk", "gen", "dup", "clone", "gensym", "gensymp", "str2sym", "evalfn", "evalfor", "readsym"}
+	w := []int{r.Range(1, 5), r.Range(1, 6), r.Range(1, 3), r.Range(0, 2), r.Range(0, 3), r.Range(0, 3), r.Range(0, 2), r.Range(0, 2), r.Range(0, 2), r.Range(0, 2), r.Range(0, 2)}
+	kinds := []string{"mk", "gen", "dup", "clone", "gensym", "gensymp", "str2sym", "evalfn", "evalfor", "readsym", "rmsym"}
 	for j := 0; j < n; j++ {
 		op := famOp{Op: kinds[r.Weighted(w)], Member: r.Intn(5)}
 		switch op.Op {
-		case "mk", "str2sym", "readsym":
+		case "mk", "str2sym", "readsym", "rmsym":
 			op.Name = genFamName(r)
 		case "gen", "gensymp":
 			op.Prefix = r.Pick(famPrefixes)
@@ -254,6 +254,22 @@ func execFamily(body json.RawMessage) *kernel.Result {
 				fail("C19.P-panic", op.Op+"@"+o.Site, "step %d: %s panicked: %s", step, code, o.PanicMsg)
 			}
 			res.Tracef("%d %s %d", step, op.Op, mi)
+		case "rmsym":
+			// bind a variable of that name and remove the binding again: the symbol itself must stay what it is
+			name := resolve(op.Name)
+			if zygo.SymbolRegex.MatchString(name) && !strings.ContainsAny(name, ".:#?") {
+				o := zy.Eval(m, fmt.Sprintf("(def %s 1) (rmsym (quote %s)) ", name, name), zy.DefaultBudget)
+				if o.Panicked {
+					fail("C19.P-panic", "rmsym@"+o.Site, "step %d: def+rmsym of %s panicked: %s", step, name, o.PanicMsg)
+				}
+				if o.OK() {
+					res.Probe("rmsym")
+					// the name was interned by the def at the latest
+					s2 := m.MakeSymbol(name)
+					record(step, "rmsym", name, s2.Number())
+				}
+			}
+			res.Tracef("%d rmsym %d", step, mi)
 		case "evalfn":
 			// anonymous functions and loops generate symbols internally
 			o := zy.Eval(m, "((fn [x] (+ x 1)) 1) ", zy.DefaultBudget)
